@@ -56,7 +56,7 @@ m = {
  "hooks": {
   "guard": "none: no source hook is committed to /repo; every seam is injected at build time (go test -overlay: simulator runtime + harness files added, instrumented copies of the target packages produced by /verif/sim/instrument from the current working tree)",
   "enable": "./check <id> quick  (instrument -> overlay.json -> /opt/veriftools/go1.26.8/bin/go test -c -overlay=... -modfile=<scratch copy of go.mod>)",
-  "baseline_off_cmd": "cd /repo && go test -vet=off -count=1 ./...",
+  "baseline_off_cmd": "cd /repo && GOFLAGS=-mod=mod GOPROXY=off go test -vet=off -count=1 ./...",
   "source_commits": [],
   "add_only": True,
  },
